@@ -168,7 +168,8 @@ def check_preface(fit):
     fd, path = tempfile.mkstemp(suffix=".yml", prefix="c17-")
     os.close(fd)
     try:
-        fit.to_file(path)
+        # with valid results the asymmetric uncertainties are written too (every other time: computed by to_file itself)
+        fit.to_file(path, calculate_asymmetric_errors=bool(fit.did_fit and len(fit.parameter_names) % 2 == 0))
         lines = [l[1:].strip() for l in open(path).read().split("\n") if l.startswith("#")]
     finally:
         os.remove(path)
@@ -217,6 +218,14 @@ def check_preface(fit):
                     bad.append(("preface does not mark %s as fixed" % name, r, sorted(fx)))
                 if not near(r[2], h["errors"][k]):
                     bad.append(("preface uncertainty of %s" % name, r[2], h["errors"][k]))
+            if asym and r[2] != "fixed":
+                cols = [c.strip() for c in re.split(r"\s{2,}", head)]
+                held_asym = fit.asymmetric_parameter_errors
+                if held_asym is not None:
+                    for label, want in (("Par err down", float(held_asym[k][0])), ("Par err up", float(held_asym[k][1]))):
+                        cell = r[cols.index(label)]
+                        if cell != "N/A" and not near(cell, want):
+                            bad.append(("preface '%s' of %s" % (label, name), cell, want))
             cells = r[(5 if asym else 3):]
             for j, cell in enumerate(cells):
                 if not near(cell, h["cor"][k][j]):
